@@ -73,7 +73,9 @@ func genProfile(t *rapid.T) (uni.Profile, string) {
 
 // genUnknown draws the unknown-value option.
 func genUnknown(t *rapid.T, o *Opts) {
-	switch rapid.IntRange(0, 9).Draw(t, "unk") {
+	switch rapid.IntRange(0, 11).Draw(t, "unk") {
+	case 10:
+		o.HasUnknown, o.Unknown = true, uni.NilIface() // WithUnknownValue(nil)
 	case 0:
 		o.HasUnknown, o.Unknown = true, uni.Str("")
 	case 1:
